@@ -21,65 +21,47 @@ Definition vm_bad (d : N) (n : nat) : list N :=
 Definition vm_H (tbl : list (N * nat)) (c : list N) : N :=
   match find (fun e => list_eqb N.eqb c (vm_good (fst e) (snd e))) tbl with Some e => fst e | None => 0 end.
 Definition vm_id (_ : nat) (l : list entry) : list entry := l.
-Section VM.
-Variable H : list N -> N.
-Notation RUNOP := (run_op H vm_id src_inplace src_unlink_first true).
-Notation STEPS := (op_steps H vm_id src_inplace src_unlink_first true).
-Notation HOP := (run_hop H vm_id src_inplace src_unlink_first true).
-Fixpoint vm_crash_call (s : st) (ops : list op) (j : nat) : st :=
-  match ops with
-  | [] => HOP s (Crashed SaveIndex 0)
-  | o :: r => let n := length (STEPS s o) in
-              if Nat.leb j n then HOP s (Crashed o j) else vm_crash_call (RUNOP s o) r (j - n)
-  end.
-Definition vm_hist (hist : list (list op * option nat)) : st :=
-  fold_left (fun s c => match snd c with
-                        | None => run H vm_id src_inplace src_unlink_first true (fst c) s
-                        | Some j => vm_crash_call s (fst c) j
-                        end) hist init.
-Definition vm_view (hist : list (list op * option nat)) (fin : list op) (j : nat) (ids : list N) (expect : list entry) :=
-  let s := vm_hist hist in
-  let fsk := crash_seq H vm_id src_inplace src_unlink_first true s fin j in
+Definition vm_in (l : list N) (d : N) : bool := existsb (N.eqb d) l.
+Definition vm_view (H : list N -> N) (mts bads : list N) (hist : list acall) (fin : api) (j : nat)
+                   (ids : list N) (expect : list entry) :=
+  let mt := vm_in mts in
+  let dec := fun d => negb (vm_in bads d) in
+  let s := runa H vm_id src_inplace src_unlink_first true mt dec hist init in
+  let fsk := crash_seq H vm_id src_inplace src_unlink_first true s (expand H mt dec s fin) j in
   (layout_okb fsk,
    map (fun d => match files fsk (FBlob d) with
                  | Some f => Some (length (fcontent f), fro f) | None => None end) ids,
    match read_index fsk with
    | Some l => Some (length l, forallb (fun e => existsb (entry_eqb e) l) expect)
    | None => None
-   end).
-End VM.
+   end,
+   load_okb mt dec fsk).
 """
 
 
 def _c10_vm_call(toks, blobs):
     n = {b[0]: b[1] for b in blobs}
-    man = {b[0]: b[2] for b in blobs}
     k = toks[0]
-    if k == "push" and man[int(toks[1])] == 2:
-        # undecodable manifest: stored, unindexable, removed again (same translation as ml/c10_main.ml)
-        d = int(toks[1]); return ["Push %d (vm_good %d %d) false" % (d, d, n[d]), "Delete %d" % d]
-    if k == "tag" and man[int(toks[1])] == 2:
-        return ["Untag %d" % (900000000 + int(toks[1]))]
     if k == "push":
-        d = int(toks[1]); return ["Push %d (vm_good %d %d) %s" % (d, d, n[d], "true" if man[d] == 1 else "false")]
+        d = int(toks[1]); return "APush %d (vm_good %d %d)" % (d, d, n[d])
     if k == "pushbad":
-        d = int(toks[1]); return ["Push %d (vm_bad %d %d) %s" % (d, d, n[d], "true" if man[d] == 1 else "false")]
+        d = int(toks[1]); return "APush %d (vm_bad %d %d)" % (d, d, n[d])
     if k == "tag":
-        return ["Tag %s %s" % (toks[1], toks[2])]
+        return "ATag %s %s" % (toks[1], toks[2])
     if k == "untag":
-        return ["Untag %s" % toks[1]]
+        return "AUntag %s" % toks[1]
     if k == "delete":
-        return ["Delete %s" % toks[1]]
+        return "ADelete %s []" % toks[1]
     if k == "saveindex":
-        return ["SaveIndex"]
+        return "ASaveIndex"
     if k == "dgc":
-        return ["Delete %s" % t for t in toks[1:]]
+        return "ADelete %s [%s]" % (toks[1], "; ".join(toks[2:]))
     if k == "gc":
         swept = [int(x) for x in toks[1:]]
         live = [b[0] for b in blobs if b[0] not in swept]
-        return ["Forget [%s]" % "; ".join(str(x) for x in live)] + ["Delete %d" % x for x in swept]
+        return "AGC [%s] [%s]" % ("; ".join(str(x) for x in live), "; ".join(str(x) for x in swept))
     if k == "reopen":
-        return []
+        return "AReopen"
     raise ValueError(k)
 
 
@@ -94,9 +76,9 @@ def _c10_vm_goal(case, out):
     for it in [x for x in f["hist"].split(",") if x]:
         t = it.split(":")
         if t[0] == "crash":
-            hist.append("([%s], Some %s%%nat)" % ("; ".join(_c10_vm_call(t[2:], blobs)), t[1]))
+            hist.append("ACrashed (%s) %s%%nat" % (_c10_vm_call(t[2:], blobs), t[1]))
         else:
-            hist.append("([%s], None)" % "; ".join(_c10_vm_call(t, blobs)))
+            hist.append("ADone (%s)" % _c10_vm_call(t, blobs))
     fin = _c10_vm_call(f["final"].split(":"), blobs)
     toks = out.split(" ")[1:]
     layout = "true" if "F:L=ok" in toks else "false"
@@ -119,8 +101,10 @@ def _c10_vm_goal(case, out):
         idx, exp = "None", ""
     ids = [b[0] for b in blobs]
     tbl = "; ".join("(%d, %d%%nat)" % (b[0], b[1]) for b in blobs)
-    return ("vm_view (vm_H [%s]) [%s] [%s] %d%%nat [%s] [%s]\n  = (%s, [%s], %s)"
-            % (tbl, "; ".join(hist), "; ".join(fin), j, "; ".join(str(i) for i in ids), exp, layout,
+    mts = "; ".join(str(b[0]) for b in blobs if b[2] >= 1)
+    bads = "; ".join(str(b[0]) for b in blobs if b[2] == 2)
+    return ("vm_view (vm_H [%s]) [%s] [%s] [%s] (%s) %d%%nat [%s] [%s]\n  = (%s, [%s], %s, true)"
+            % (tbl, mts, bads, "; ".join(hist), fin, j, "; ".join(str(i) for i in ids), exp, layout,
                "; ".join(view.get(i, "None") for i in ids), idx))
 
 
